@@ -114,6 +114,15 @@ def run(r: Run):
             c = comps[0] if len(s) > 3 or rng.random() < 0.7 else rng.choice(comps)
             rlines.append(f"read\t{form}\t{c}\t{cps(s)}")
             meta.append((s, form))
+    # ... and every key of the table read on a composition that HOLDS it (next to the plain entry of the same element):
+    # "indexing by a valid key returns the same count as access by the parsed specification" for every (element, isotope)
+    for sym, isos in table_keys().items():
+        for iso in [0] + isos:
+            text = sym if iso == 0 else f"{sym}[{iso}]"
+            c = f"{sym}:{iso}=7" + (f",{sym}:0=3" if iso != 0 else "") + ",O:18=2"
+            for form in (("vec", "map", "evec", "emap") if thorough or iso in isos[:2] or iso == 0 else ("vec", "emap")):
+                rlines.append(f"read\t{form}\t{c}\t{cps(text)}")
+                meta.append((text, form))
     ri, rm = r.impl("spec", rlines), r.model("spec", rlines)
     for (s, form), line, a, b in zip(meta, rlines, ri, rm):
         model, spec = b.split("\t")
@@ -140,6 +149,11 @@ def run(r: Run):
     r.oblige("correspondence: ElementSpecification parse/Display and string-keyed reads agree with the model and the specification",
              "corr", corr_ok)
     return r.finish(RULE, exhaustive=True)
+
+
+def table_keys():
+    from .formula import table_keys as tk
+    return tk()
 
 
 def shape(s):
